@@ -449,6 +449,23 @@ def c09(ck):
     fr = gbprog.lcd_off_frame_programs()
     record_and_validate_machine(ck, fr, "c09lcdoff", jit=False, shards=2, validate="Trace_Clock")
     record_and_validate_machine(ck, fr, "c09lcdoffj", jit=True, shards=2, validate="Trace_Clock")
+    # a block of several hundred machine cycles while an OAM DMA is in flight: its time reaches the DMA engine too
+    lb = gbprog.dma_long_block_programs() + gbprog.dma_machine_programs(rng)
+    want = {s["id"]: s["expect_cpu"] for s in lb if "expect_cpu" in s}
+    for tag, jit in (("c09dmalong", False), ("c09dmalongj", True)):
+        files = record_and_validate_machine(ck, lb, tag, jit=jit, shards=2, validate="Trace_Clock")
+        # "the machine cycles the CPU consumed" of these blocks are plain sums (NOPs): what the CPU reports must be them
+        for tp in files:
+            cur, k = None, 0
+            for line in open(tp):
+                r = json.loads(line)
+                if r["ev"] == "init":
+                    cur, k = r["id"], 0
+                elif r["ev"] == "step":
+                    if cur in want and k < len(want[cur]) and r["cpu"] != want[cur][k]:
+                        ck.mismatch({"kind": "block-cycles", "scenario": cur, "step": k, "jit": jit, "reported": r["cpu"], "consumed": want[cur][k]},
+                                    "block-cycles-%s" % ("jit" if jit else "interp"))
+                    k += 1
     cancel = gbprog.dispatch_cancel_programs(rng)
     record_and_validate_machine(ck, cancel, "c09cancel", jit=False, shards=4)
     record_and_validate_machine(ck, [dict(s, mode="block") for s in cancel], "c09cancelj", jit=True, shards=4)
@@ -497,6 +514,14 @@ def c12(ck):
     ck.count(n)
     for pth in (split_trace_init(tr, 50000) if thorough else [tr]):
         trace_validate(ck, "Trace_Machine", pth, n, "bus-history")
+    # the translator fetches instructions too: 2- and 3-byte instructions straddling the end of bank 0 with banks 1..3
+    # mapped must take their operand bytes from the mapped bank, as the interpreter's fetch and a data read do
+    import gbprog
+    fs = gbprog.straddle_programs(rom_only=True)
+    fi = record_and_validate_machine(ck, fs, "c10fetchi", jit=False, shards=4, validate=False)
+    fj = record_and_validate_machine(ck, fs, "c10fetchj", jit=True, shards=4, validate=False)
+    compare_traces(ck, fj, fi, "fetch-straddle", "jit", "interp")
+    ck.traces += 2 * len(fs)
 
 
 def split_trace_init(path, maxlines):
@@ -601,6 +626,14 @@ def c10(ck):
     ck.sample({"history_excerpt": head_lines(tr, 6)[1:]})
     for pth in (split_trace_init(tr, 50000) if thorough else [tr]):
         trace_validate(ck, "Trace_Machine", pth, n, "bus-history")
+    # the translator fetches instructions too: 2- and 3-byte instructions straddling the end of bank 0 with banks 1..3
+    # mapped must take their operand bytes from the mapped bank, as the interpreter's fetch and a data read do
+    import gbprog
+    fs = gbprog.straddle_programs(rom_only=True)
+    fi = record_and_validate_machine(ck, fs, "c10fetchi", jit=False, shards=4, validate=False)
+    fj = record_and_validate_machine(ck, fs, "c10fetchj", jit=True, shards=4, validate=False)
+    compare_traces(ck, fj, fi, "fetch-straddle", "jit", "interp")
+    ck.traces += 2 * len(fs)
 
 
 # ------------------------------------------------- instruction-level family
@@ -974,6 +1007,15 @@ def c03(ck):
                 vlib.write_ndjson(p, ev)
                 evf.append(p)
             validate_traces(ck, evf, "Trace_CodeCache", "cache-events-%s-%s" % (tag, name), True)
+    # a 128-bank MBC1: the upper bank bits and the mode register take part (three-mode equality only)
+    ms = gbprog.mbc1_mode_scenarios(random.Random(vlib.seed() + 3), 400 if thorough else 60)
+    warm = record_and_validate_machine(ck, ms, "c03wmbc1m", jit=True, shards=8, validate=False)
+    cold = record_and_validate_machine(ck, ms, "c03cmbc1m", jit=True, shards=8, cold=True, validate=False)
+    intp = record_and_validate_machine(ck, ms, "c03imbc1m", jit=False, shards=8, validate=False)
+    compare_traces(ck, warm, cold, "mbc1-mode", "warm", "cold")
+    compare_traces(ck, warm, intp, "mbc1-mode", "warm", "interp")
+    ck.traces += 3 * len(ms)
+    validate_traces(Diag(ck), warm, "Trace_Machine", "c03wmbc1m", True)
     # block shapes the translator does not handle (model: WithStraddle / WithSelfSwitch): known findings
     shapes = tlc("MC_CodeCache", cfg="MC_CodeCache_shapes", workers=2, check=False, timeout=600)
     ck.tlc_runs.append({"module": "MC_CodeCache_shapes", "counterexample": "is violated" in shapes.text})
@@ -994,10 +1036,14 @@ def c03(ck):
               "step": vlib.apalache("ApaCodeCache.tla", ["--cinit=ConstInit", "--init=IndInit", "--inv=IndInv", "--length=1"]),
               "step_without_sync": vlib.apalache("ApaCodeCache.tla", ["--cinit=ConstInitBug", "--init=IndInit", "--inv=IndInv", "--length=1"])}
         ck.extra["apalache_inductive_invariant"] = ap
-        recs = gbv(["cache-pressure", "--banks", 60, "--steps", 200000, "--capture", os.path.join(rundir(), "cp.stdout")], jit=True, timeout=3600)
+        # tens of thousands of distinct blocks, each loading the number of the bank it was translated from, chained round
+        # the banks again and again: after every step the code that ran must be that of the bank mapped there
+        recs = gbv(["cache-pressure", "--banks", 60, "--steps", 420000, "--capture", os.path.join(rundir(), "cp.stdout")], jit=True, timeout=3600)
         for r in recs:
             if r.get("kind") == "crash":
                 ck.mismatch(dict(r, family="cache-pressure"), "cache-pressure")
+            if r.get("kind") == "wrong-bank-code":
+                ck.mismatch(dict(r, family="cache-pressure-oracle"), "cache-pressure-wrong-bank")
 
 
 # ------------------------------------------------------------------- C04
@@ -1018,6 +1064,7 @@ def c04(ck):
     scs = gbprog.structured_programs(n, rng) + gbprog.structured_programs(n // 3, rng, start_id=2200000, mbc=0x33) \
         + gbprog.structured_programs(n // 3, rng, start_id=2250000, mbc=0x52) \
         + gbprog.structured_programs(n // 3, rng, start_id=2260000, mbc=0x106) \
+        + gbprog.boundary_fallthrough_programs(rng, 200 if thorough else 24) \
         + gbprog.alu_table_programs(rng)
     # the interpreter build steps one instruction per update(), the jit build one block: compare like with like
     # by stepping both block by block (Core::run_code_block; a halted CPU ticks through update())
